@@ -126,7 +126,7 @@ Proof.
   - intros [t sh d] v x' Hw H. cbn [l_deshape lget lput aty ash adata] in *.
     destruct (same_cell t [prodn sh] v) eqn:C; [|discriminate]. apply same_cell_spec in C as (T & S & L).
     inversion H; subst; clear H. unfold p_deshape; cbn [aty ash adata]. rewrite <- S. rewrite arr_eta.
-    split; [reflexivity|]. unfold wf; cbn [aty ash adata]. rewrite S in L. cbn [prodn fold_right] in L. lia.
+    split; [reflexivity|]. unfold wf; cbn [aty ash adata]. cbn [prodn fold_right] in L. fold (prodn sh) in L. lia.
 Qed.
 
 Lemma rot_by_shape k x v : rot_by k x = Ok v -> aty v = aty x /\ ash v = ash x.
